@@ -36,7 +36,7 @@ def judge(model, specs, trace=()):
 
 
 def task(item):
-    model, trace, pname = item
+    model, trace, pname = item[:3]
     specs = render.render(model)
     oc, v = judge(model, specs, trace)
     return {'outcome': oc, 'viol': v}
@@ -57,7 +57,7 @@ def ttask(item):
 def run(tier, seed):
     r = explore.Run(PROP, tier, seed)
     states = c01.gather_states(tier, r)
-    for s, tr, pn in states[:2] + states[-2:]:
+    for s, tr, pn, fl, d in states[:2] + states[-2:]:
         r.sample({'profile': pn, 'trace': list(tr), 'specs': render.render(s)})
     r.run_tasks(task, states, budget=120)
     pitems = [i for i in paramspace.items(tier, with_models=True) if i[1]]
